@@ -96,10 +96,11 @@ FaultLayouts ==
   IN IF Slice = "faults-quick" THEN q ELSE q \cup {l \in more : l.off = "text" => IsV3(l.ver)}
 
 Fields == {"tot", "par", "pnb1", "pnb2", "h_tb", "h_te", "h_db", "h_de", "t_db", "t_de"}
+STextFields(l) == IF l.stext /\ IsV3(l.ver) THEN {"t_sb", "t_se"} ELSE {}       \* offsets of the supplemental TEXT segment
 FaultsOf(l) ==
   {[k |-> "trunc", field |-> "-", how |-> "-", at |-> a] : a \in 0..(Len(Write(l, NoFault)) - 1)}
   \cup {[k |-> "empty", field |-> "-", how |-> "-", at |-> 0]}
-  \cup {[k |-> "field", field |-> fd, how |-> h, at |-> 0] : fd \in Fields, h \in {"m1", "p1", "half", "big"}}
+  \cup {[k |-> "field", field |-> fd, how |-> h, at |-> 0] : fd \in Fields \cup STextFields(l), h \in {"m1", "p1", "half", "big"}}
 Pending == [k |-> "pending", field |-> "-", how |-> "-", at |-> 0]
 FaultRun == Slice \in {"faults-quick", "faults-full"}
 
@@ -150,10 +151,20 @@ AnalysisLoss(s, o) ==
   /\ s.flt.k = "trunc" /\ HasAnalysis(s.lay) /\ o.k = "ok"
   /\ o.N = s.lay.N /\ o.D = Len(s.lay.widths) /\ o.data = MaskedEvents(s.lay) /\ o.text = WrittenText(s.lay, s.flt)
   /\ o.an # DictOf(FlatToks(APairs))
+(* DEVIATION, named: the offsets of the SUPPLEMENTAL TEXT segment ($BEGINSTEXT / $ENDSTEXT) carry no redundancy at all -  *)
+(* the segment need not start with the delimiter - so a corrupted offset that still lands on something parsable is read   *)
+(* silently: "/SK1/s//v/" read one byte late is the keyword K1, read one byte short it is SK1 -> "s".  Events and the      *)
+(* primary keywords are intact; the supplemental ones differ.  Known finding C16/stext-offset-corruption-read-silently.    *)
+STextShift(s, o) ==
+  /\ s.flt.k = "field" /\ s.flt.field \in {"t_sb", "t_se"} /\ o.k = "ok"
+  /\ o.N = s.lay.N /\ o.D = Len(s.lay.widths) /\ o.data = MaskedEvents(s.lay)
+  /\ o.text # WrittenText(s.lay, s.flt)
+  /\ DictOf(FlatToks(TextPairs(s.lay, s.flt, Offsets(s.lay)))) \subseteq o.text       \* every primary pair is there
 Classify(s, o) == IF s.flt = NoFault THEN "no-fault" ELSE IF o.k = "refused" THEN "refused"
                   ELSE IF AnalysisLoss(s, o) THEN "analysis-loss"
+                  ELSE IF STextShift(s, o) THEN "stext-shift"
                   ELSE IF s.flt.k = "field" /\ GeometryField(s.flt.field) THEN "self-consistent-geometry" ELSE "intact"
-LoudFailure == (out.k # "todo" /\ scn.flt # NoFault) => (out.k = "refused" \/ Intact \/ Ambiguous \/ AnalysisLoss(scn, out))
+LoudFailure == (out.k # "todo" /\ scn.flt # NoFault) => (out.k = "refused" \/ Intact \/ Ambiguous \/ AnalysisLoss(scn, out) \/ STextShift(scn, out))
 
 (* ---- the machine ---- *)
 Init == /\ scn \in Scenarios
